@@ -77,7 +77,10 @@ def allowed_paths(segs, trailing, o):
             last = sg[-1]
             low = last.lower()
             if low == b"amp":
-                add |= {norm((sg[:-1], True)), norm((sg[:-1], False))}
+                # the marker is the segment: what precedes it keeps its slash ('/a/amp/' -> '/a/'); '/a/amp' may give '/a/' or '/a'
+                add.add(norm((sg[:-1], True)))
+                if not t:
+                    add.add(norm((sg[:-1], False)))
             if low.endswith(b".amp.html"):
                 add.add(norm((sg[:-1] + (last[:-9] + last[-5:],), t)))
             if low.endswith(b".amp"):
@@ -362,7 +365,7 @@ def _strategy(tier):
     return st.one_of(good, good, good, good, bad)
 
 
-PANEL = ["http://www.lemonde.fr/index.html", "https://m.forum-m.example.com:8080/a/b/?utm_source=x&id=2&a=1#top", "User:Pw@mobile.amp-site.co.uk/amp/",
+PANEL = ["http://:s3cret@www.example.com/a/amp/?x=1", "https://news.example.org/article/amp/", "http://www.lemonde.fr/index.html", "https://m.forum-m.example.com:8080/a/b/?utm_source=x&id=2&a=1#top", "User:Pw@mobile.amp-site.co.uk/amp/",
          "//amp.www2.example.org/story.amp.html?amp&b=2&a=1#/route", "HTTP://WWW.Example.COM:80/A/B/Default.aspx?ref=fb&ref=other#!/x",
          "example.com/a/../b/./index.php?x=1&amp;y=2&amp%3Bz=3", "https://xn--9ca.wwww.fr/é/?é=ü", "http://m.com/", "http://www.com/index",
          "https://user@www.example.com:443/amp?s=12&s=123&m=1&m=2", "http://example.com/x.amp/#", "example.com?fbclid=1", "https://fr.wikipedia.org/wiki/Amp"]
